@@ -102,9 +102,54 @@ theorem C01_coding_faithful {f : VFile.File} {enc : Encode.Enc} (h : Encode.enco
         ∃ X, cr.rhs[k]? = some X ∧ Encode.decodesTo enc.tsorted enc.nsorted s X :=
   Encode.encode_faithful h
 
+/-- **termination on every token sequence, per certified table**.  `Halt.certified` is an executable check
+(`LR/Halt.lean`): it searches a potential `φ` per (lookahead, state) and checks that every reduction the table
+allows lowers `cc·(stack height) + φ`; the correspondence run evaluates it on the table of every accepted
+grammar of its pools (mode `halts` of the model driver).  Where it holds, the emitted parse loop stops on every
+token sequence — sentence or not — within `Halt.stepBound` steps (linear in the length), never panics, and
+answers `Ok` iff the sequence is derivable: the emitted parser *decides* the language. -/
+theorem C01_certified_decides {P : Type} (vf : VFile.File) (enc : Encode.Enc) (m : Machine.Machine) (t : Table.Table)
+    (fuel : Nat) (he : Encode.encode vf = some enc) (hm : Machine.machineOf enc.ctx fuel = some (some m))
+    (ht : Table.machineToTable enc.ctx m = .ok t) (fm : List Machine.FirstSet)
+    (hcert : Halt.certified (Assemble.certOf enc.ctx fm m t) enc.ctx.g = true) (w : List (Tok Nat P)) :
+    ∃ r cf, runCfg enc.ctx.g (Driver.autoOfTable t) (Halt.stepBound (Assemble.certOf enc.ctx fm m t) enc.ctx.g w.length)
+        ⟨[(Driver.autoOfTable t).start], [], w⟩ = some (r, cf) ∧
+      r ≠ .panic ∧ ((∃ tr, r = .ok tr) ↔ ∃ tr : Tree Nat P, WF enc.ctx.g tr (.n enc.ctx.g.start) ∧ tr.yield = w) :=
+  Universal.emitted_parser_decides (Encode.encode_ok he) hm ht fm hcert w
+
+/-- the generic statement behind it: any driver over any table (`Valid.Cert`) with a checked potential stops on
+every input within `(|w|+1)·(cc + max φ + 1)` steps -/
+theorem C01_potential_halts {P : Type} (C : Valid.Cert) (g : Grammar Nat Nat) (cc : Nat) (φ : Halt.Pot)
+    (h : Halt.haltsB C g cc φ = true) (w : List (Tok Nat P)) :
+    ∃ r, runCfg g (Valid.mkAuto C) ((w.length + 1) * Halt.K cc φ) ⟨[C.start], [], w⟩ = some r :=
+  Halt.run_halts h w
+
+/-- the same with the sharper certificate `Halt.certifiedF` — for every lookahead and every transition `v → s`
+of the table, the run of reductions on the two-element stack `[s, v]` ends (non-reduce action, or a reduction
+that pops the floor `v`) within the simulation fuel.  It is exact on the known part of the stack, so it fails
+only if some stack the automaton can build makes the driver reduce forever.  Evaluated by the correspondence run
+on the table of every accepted grammar (mode `halts`). -/
+theorem C01_framed_decides {P : Type} (vf : VFile.File) (enc : Encode.Enc) (m : Machine.Machine) (t : Table.Table)
+    (fuel : Nat) (he : Encode.encode vf = some enc) (hm : Machine.machineOf enc.ctx fuel = some (some m))
+    (ht : Table.machineToTable enc.ctx m = .ok t) (fm : List Machine.FirstSet)
+    (hcert : Halt.certifiedF (Assemble.certOf enc.ctx fm m t) enc.ctx.g = true) (w : List (Tok Nat P)) :
+    ∃ fuel' r cf, runCfg enc.ctx.g (Driver.autoOfTable t) fuel' ⟨[(Driver.autoOfTable t).start], [], w⟩ = some (r, cf) ∧
+      r ≠ .panic ∧ ((∃ tr, r = .ok tr) ↔ ∃ tr : Tree Nat P, WF enc.ctx.g tr (.n enc.ctx.g.start) ∧ tr.yield = w) :=
+  Universal.emitted_parser_decidesF (Encode.encode_ok he) hm ht fm hcert w
+
+/-- the generic statement behind it -/
+theorem C01_framed_halts {P : Type} (C : Valid.Cert) (g : Grammar Nat Nat) (F : Nat)
+    (h : Halt.haltsF C g F = true) (w : List (Tok Nat P)) :
+    ∃ fuel r, runCfg g (Valid.mkAuto C) fuel ⟨[C.start], [], w⟩ = some r :=
+  Halt.run_haltsF h w
+
 end KikiVerif.C01
 
 #print axioms KikiVerif.C01.C01_coding_faithful
+#print axioms KikiVerif.C01.C01_certified_decides
+#print axioms KikiVerif.C01.C01_potential_halts
+#print axioms KikiVerif.C01.C01_framed_decides
+#print axioms KikiVerif.C01.C01_framed_halts
 #print axioms KikiVerif.C01.C01_every_grammar
 #print axioms KikiVerif.C01.C01_generator_passes_validator
 #print axioms KikiVerif.C01.C01_no_panic_and_sound
